@@ -33,8 +33,10 @@ MANIFEST_TEXT.update({
                  "pool: strong count == live handles after every step, value dropped exactly with the last handle, handles "
                  "deref to the same value, empty handles inert; foreign-constructed handles are only cloned/released through "
                  "the creator's function pointers (non-heap instance, so a host-allocator free would fail CBMC's checks).",
-        "note": "Sequential only: the 'on any number of threads' clause is outside what Kani can decide and is not claimed.",
-        "technique": BMC,
+        "note": "Sequential histories only: concurrent schedules are outside what Kani can decide. The static precondition of "
+                "the multi-thread clause (CArc/CArcSome are Send/Sync only if the Arc they wrap is) is decided by an auxiliary "
+                "SMT query over the impl clauses with rustc as oracle (C09's machinery).",
+        "technique": BMC + "; auxiliary SMT entailment query for the Send/Sync impls",
     },
     "C15": {
         "level": "Bounded model checking over all item sequences <= 4 (thorough 6), all stop positions, three sinks and four "
